@@ -266,9 +266,25 @@ class FEval:
             raise Untranslatable("statement %s in f" % type(s).__name__)
         self.paths.append(Path(sp.Symbol("None"), list(conds)))
 
+    def bool_tr(self, test, env):
+        """boolean structure (not / and / or / chained comparisons) over translatable comparisons"""
+        if isinstance(test, ast.UnaryOp) and isinstance(test.op, ast.Not):
+            return sp.Not(self.bool_tr(test.operand, env))
+        if isinstance(test, ast.BoolOp):
+            parts = [self.bool_tr(v, env) for v in test.values]
+            return sp.And(*parts) if isinstance(test.op, ast.And) else sp.Or(*parts)
+        if isinstance(test, ast.Compare) and len(test.ops) > 1:
+            parts = []
+            left = test.left
+            for op, right in zip(test.ops, test.comparators):
+                parts.append(self.bool_tr(ast.Compare(left=left, ops=[op], comparators=[right]), env))
+                left = right
+            return sp.And(*parts)
+        return self.tr(test, env)
+
     def cond(self, test, env):
         try:
-            c = self.tr(test, env)
+            c = self.bool_tr(test, env)
         except Untranslatable:
             return sp.Symbol("COND_" + str(abs(hash(norm_src(test))) % 10000))
         if c is sp.true:
